@@ -877,6 +877,9 @@ func (authSuite) Run(raw json.RawMessage) []Step {
 					if j == 0 {
 						f = t
 					} else {
+						if rs.Fault != "" && !rs.serve(s).Missing {
+							t = "~" // a 200 whose body does not split into members (the first answer has one notation for both)
+						}
 						ls = append(ls, t)
 					}
 				}
